@@ -215,6 +215,10 @@ def scorer_cases(draw, tier):
     n = draw(st.integers(max(2 * ms + 2, 6), 30))
     integral = draw(st.sampled_from([True, False]))
     X = draw(D.exact_matrix(n, p, dyadic=False)) if integral else draw(D.generic_matrix(n, p))
+    squared_error_family = "Gaussian" not in str(spec)
+    if integral and squared_error_family and draw(st.integers(0, 3)) == 0:
+        # large counts: still exactly representable in both dtypes (sums of squares stay below 2^63 and 2^53 x 1e3)
+        X = [[v * 1e7 for v in row] for row in X]
     k = {"CUSUM": 3, "ChangeScore": 3, "LocalAnomalyScore": 4}.get(spec["cls"], 2)
     cuts = []
     for _ in range(draw(st.integers(1, 5))):
@@ -247,12 +251,17 @@ def check_scorer(case):
         raise
     with sut("scorer fit/evaluate with generated representation"):
         got = np.asarray(K.build(case["scorer"]).fit(represent(X, case["repr"])).evaluate(cuts))
-    if want.shape != got.shape or not np.allclose(want, got, rtol=1e-9, atol=1e-9 * (1 + np.abs(want).max())):
+    Xa = np.asarray(X, dtype=float)
+    magnitude = K.score_magnitude(case["scorer"], Xa, len(Xa))  # rounding of prefix sums is relative to this
+    if want.shape != got.shape or not np.allclose(want, got, rtol=1e-9, atol=1e-9 * (1 + np.abs(want).max() + magnitude)):
         raise Violation("scorer output depends on how the same numbers are passed in", scorer=case["scorer"],
                         repr=case["repr"], canonical=want.tolist(), got=got.tolist())
     r = case["repr"]
     noncanon = r["container"] != "DataFrame" or r["dtype"] != "float64" or r["index"]["kind"] != "range0"
-    return {"nontrivial": noncanon, "classes": [f"container={r['container']}", f"dtype={r['dtype']}", f"scorer={case['scorer']['cls']}"]}
+    classes = [f"container={r['container']}", f"dtype={r['dtype']}", f"scorer={case['scorer']['cls']}"]
+    if np.abs(Xa).max() >= 1e6:
+        classes.append("large_counts")
+    return {"nontrivial": noncanon, "classes": classes}
 
 
 def det_facet(det, nq, nt):
